@@ -273,6 +273,11 @@ OBLIGATIONS['C19'] += [('header::HeaderBuilder::value__ref_reserved', 'ref'), ('
 OBLIGATIONS['C12'] += [('header::HeaderBuilder::value__ref_reserved', 'ref'), ('key::CoseKeyBuilder::param__ref_reserved', 'ref'), ('cwt::ClaimsSetBuilder::claim__ref_reserved', 'ref')]
 OBLIGATIONS['C05'] += [('encrypt::CoseRecipient::decrypt__ref_context', 'ref'), ('encrypt::CoseRecipientBuilder::aad__ref_context', 'ref')]
 OBLIGATIONS['C03'] += [('sign::CoseSign1::tbs_detached_data__ref_payload', 'ref'), ('sign::CoseSign::tbs_detached_data__ref_payload', 'ref')]
+# every function that documents a panic has its necessity copy (the documented precondition removed -> must fail)
+OBLIGATIONS['C04'] += [('mac::*::*__nec_payload', 'nec')]
+OBLIGATIONS['C05'] += [('encrypt::*::*__nec_*', 'nec')]
+OBLIGATIONS['C03'] += [('sign::*::*__nec_*', 'nec')]
+OBLIGATIONS['C06'] += [('mac::*::*__nec_payload', 'nec'), ('encrypt::*::*__nec_*', 'nec'), ('sign::*::*__nec_*', 'nec')]
 OBLIGATIONS['C17'] += [     # the decoders that classify labels through the registries
     ('cwt::ClaimsSet::from_cbor_value', 'body'), ('header::Header::from_cbor_value_nested', 'body'), ('key::CoseKey::from_cbor_value', 'body'),
 ]
